@@ -20,6 +20,8 @@ typedef struct c11_state {
 	int      timer_fired[4];
 	int      create_failed;
 	int      fibers_before;
+	int      att_destroy;     /* the thread that attached itself as worker 0 destroys the pool after it was released (the usual main() pattern) */
+	int      force_external;  /* the caller is known not to be a pool thread (any more), whatever the library's thread-local says */
 } c11_state;
 static c11_state C;
 static char g_cf_names[17][48][28];
@@ -40,7 +42,7 @@ static void c11_exec(const op_t *op, int opidx) {
 	const item_t *it = &op->it;
 	pool_w *pw = &W.pool[0];
 	tpt_p cur = tpt_get_current();
-	int is_pool = (cur != NULL);
+	int is_pool = (cur != NULL) && !C.force_external;
 	const char *k = it->kind;
 	int rc;
 	if (!pw->tp || pw->destroyed) return;
@@ -54,6 +56,7 @@ static void c11_exec(const op_t *op, int opidx) {
 		}
 		/* exclusive: wait until no other external call is inside the pool API, then nobody else may enter */
 		if (C.destroying) return;
+		if (C.att_destroy && C.attacher >= 0 && !C.force_external) return; /* left to the attached thread */
 		C.destroying = 1;
 		if (C.inflight) sim_block(pred_no_inflight, NULL, 0, "c11.destroy.wait_inflight");
 		if (!pw->shutdown_called) sim_probe("c11.destroy_without_shutdown");
@@ -76,6 +79,12 @@ static void c11_exec(const op_t *op, int opidx) {
 		pw->shutdown_called = 1;
 	} else if (0 == strcmp(k, "swait")) {
 		int was_shutdown = pw->shutdown_called;
+		if (C.att_destroy && C.attacher >= 0 && !is_pool) {
+			/* tp_shutdown_wait() joins worker 0's thread id, which here is an application thread that goes on living
+			 * (it destroys the pool next): another thread waiting for it would wait for that thread's exit */
+			C.inflight--;
+			return;
+		}
 		rc = tp_shutdown_wait(pw->tp);
 		if (is_pool) {
 			if (rc != EDEADLK && rc != EBUSY) sim_violation("lc-bad-errno", "tp_shutdown_wait from a pool thread returned %d, documented is EDEADLK", rc);
@@ -142,6 +151,14 @@ static void *attacher_main(void *arg) {
 	sim_set_op(-3);
 	C.attach_rc = tp_thread_attach_first(pw->tp);
 	sim_log("attach_first returned %d", C.attach_rc);
+	if (C.att_destroy && 0 == C.attach_rc && !sim_violated() && !pw->destroyed) {
+		/* back from the pool: this thread is an ordinary caller again and tears the pool down */
+		op_t d; memset(&d, 0, sizeof(d)); item_kind(&d.it, "destroy");
+		sim_probe("c11.destroy_by_attached_thread");
+		C.force_external = 1;
+		c11_exec(&d, -1);
+		C.force_external = 0;
+	}
 	return NULL;
 }
 
@@ -203,7 +220,7 @@ static void c11_gen(plan_t *p, rng_t *r, int tier) {
 		else if (mode == 1) { item_set(f, "err", EAGAIN); item_set(f, "count", 1 + (long long)rng_below(r, 3)); }
 		else { item_set(f, "err", EAGAIN); item_set(f, "count", 20); }
 	}
-	if (skip && rng_chance(r, 700)) { op = plan_add_op(p, "attach"); item_set(&op->it, "actor", 0); }
+	if (skip && rng_chance(r, 700)) { op = plan_add_op(p, "attach"); item_set(&op->it, "actor", 0); item_set(&p->cfg, "attdestroy", rng_chance(r, 500)); }
 	item_set(&p->cfg, "waitstart", rng_chance(r, 400));
 	{
 		int ntraffic = (int)rng_below(r, (tier == TIER_QUICK) ? 8 : 16);
@@ -359,6 +376,7 @@ again:
 		sim_set_op(tcreate_op);
 		world_start_threads(0, (int)item_get(&p->ops[tcreate_op].it, "skip", 0));
 	}
+	C.att_destroy = (int)item_get(&p->cfg, "attdestroy", 0);
 	if (attach_op >= 0 && pw->never_started[0]) {
 		C.attacher = sim_spawn(attacher_main, NULL, "attacher");
 		pw->never_started[0] = 0;
@@ -372,6 +390,13 @@ again:
 	for (int a = 0; a < actors; a++) { char nm[16]; snprintf(nm, sizeof(nm), "actor%d", a); ids[a] = sim_spawn(c11_actor, (void *)(intptr_t)a, nm); }
 	for (int a = 0; a < actors; a++) sim_join_fiber(ids[a]);
 	if (sim_violated()) return NULL;
+	if (!pw->destroyed && C.att_destroy && C.attacher >= 0) {
+		/* release the attached thread (it destroys the pool itself) */
+		sim_set_op(-2);
+		if (!pw->shutdown_called) { C.inflight++; tp_shutdown(pw->tp); pw->shutdown_called = 1; C.inflight--; }
+		sim_join_fiber(C.attacher);
+		if (sim_violated()) return NULL;
+	}
 	if (!pw->destroyed) {
 		/* the actor owning the final destroy bailed out early (cannot happen) or it was skipped: do it here */
 		op_t d; memset(&d, 0, sizeof(d)); item_kind(&d.it, "destroy");
